@@ -22,6 +22,9 @@ pub enum Op {
     AddBusy { n: u16, pool_sel: u8, wallet_every: u8 },
     /// tell the wallet the chain tip (model tip minus `behind`, clipped)
     UpdateTip { behind: u8 },
+    /// append one block that mines again (same txid and bytes, new place in the trees) up to `sels.len()` wallet
+    /// transactions that an earlier reorganisation removed from the chain; nothing if there is none
+    ReMine { sels: Vec<u32> },
     /// the documented start of a sync round: hand the wallet the true roots of every shard (2^16-leaf subtree) of
     /// one pool that the current branch has completed (`put_*_subtree_roots`), then the chain tip
     PutSubtreeRoots { pool: u8 },
@@ -40,6 +43,10 @@ pub enum Op {
 }
 
 pub fn arb_op(na: u8, nf: u8, iw: bool, long: bool) -> impl Strategy<Value = Op> {
+    arb_op_opts(na, nf, iw, long, false)
+}
+
+pub fn arb_op_opts(na: u8, nf: u8, iw: bool, long: bool, remine: bool) -> impl Strategy<Value = Op> {
     prop_oneof![
         5 => proptest::collection::vec(arb_block(na, nf, iw, 3, 4), 1..6).prop_map(Op::AddBlocks),
         if long { 3 } else { 1 } => (if long { 1u16..130 } else { 1u16..12 }).prop_map(Op::AddEmpty),
@@ -49,6 +56,8 @@ pub fn arb_op(na: u8, nf: u8, iw: bool, long: bool) -> impl Strategy<Value = Op>
         5 => (any::<u32>(), any::<bool>(), if long { 1u16..160 } else { 1u16..10 }).prop_map(|(which, from_end, chunk)| Op::ScanGap { which, from_end, chunk }),
         2 => (0u8..8, any::<bool>()).prop_map(|(depth, reorg)| Op::Truncate { depth, reorg }),
         2 => (any::<u32>(), any::<bool>()).prop_map(|(which, past)| Op::ExpiryProbe { which, past }),
+        // last, so that shrinking (which moves towards earlier alternatives) never introduces it when its weight is 0
+        if remine { 2 } else { 0 } => proptest::collection::vec(any::<u32>(), 1..4).prop_map(|sels| Op::ReMine { sels }),
     ]
 }
 
@@ -61,6 +70,12 @@ pub struct Case {
 }
 
 pub fn arb_case(max_ops: usize, p_long: u32) -> impl Strategy<Value = Case> {
+    arb_case_opts(max_ops, p_long, false)
+}
+
+/// `remine`: histories may mine orphaned wallet transactions again after a reorganisation (`Op::ReMine`, also right
+/// after a reorganising rewind).
+pub fn arb_case_opts(max_ops: usize, p_long: u32, remine: bool) -> impl Strategy<Value = Case> {
     (arb_world(), prop::bool::weighted(p_long as f64 / 100.0), 1u16..200).prop_flat_map(move |(world, long, final_chunk)| {
         let iw = world.nu6_3_offset.is_some();
         let (na, nf) = (world.n_accounts, world.n_foreign);
@@ -103,7 +118,7 @@ pub fn arb_case(max_ops: usize, p_long: u32) -> impl Strategy<Value = Case> {
         };
         // mostly single ops; sometimes a rewind followed by the two orphan-expiry probes (a scan may come between)
         let chunk = prop_oneof![
-            12 => arb_op(na, nf, iw, long).prop_map(|o| vec![o]),
+            12 => arb_op_opts(na, nf, iw, long, remine).prop_map(|o| vec![o]),
             2 => (0u8..6, any::<bool>(), any::<u32>(), proptest::option::of((any::<u32>(), any::<bool>(), 1u16..8)))
                 .prop_map(|(depth, reorg, which, scan)| {
                     let mut v = vec![Op::Truncate { depth, reorg }];
@@ -112,6 +127,17 @@ pub fn arb_case(max_ops: usize, p_long: u32) -> impl Strategy<Value = Case> {
                         v.push(Op::ScanGap { which: w, from_end, chunk });
                     }
                     v.push(Op::ExpiryProbe { which, past: true });
+                    v
+                }),
+            // a reorganisation whose new branch mines some of the removed wallet transactions again
+            if remine { 3 } else { 0 } => (1u8..6, proptest::collection::vec(any::<u32>(), 1..4), proptest::option::of(arb_block(na, nf, iw, 2, 3)), (any::<u32>(), any::<bool>(), 1u16..8))
+                .prop_map(|(depth, sels, before, (w, from_end, chunk))| {
+                    let mut v = vec![Op::Truncate { depth, reorg: true }];
+                    if let Some(b) = before {
+                        v.push(Op::AddBlocks(vec![b]));
+                    }
+                    v.push(Op::ReMine { sels });
+                    v.push(Op::ScanGap { which: w, from_end, chunk });
                     v
                 }),
         ];
@@ -147,6 +173,7 @@ pub struct Flags {
     pub scans: u32,
     pub expiry_probes: u32,
     pub subtree_roots_put: u32,
+    pub remined_txs: u32,
 }
 
 /// maximal unscanned ranges [start, end] on the current branch
@@ -376,6 +403,11 @@ impl Hist {
                     self.announce_tip(h, step)?;
                 }
             }
+            Op::ReMine { sels } => {
+                if let Some(bid) = self.chain.add_remine_block(&self.world, sels) {
+                    self.flags.remined_txs += self.chain.blocks[bid].txs.len() as u32;
+                }
+            }
             Op::PutSubtreeRoots { pool: _ } => {
                 // from here on the wallet is synced the documented way; start a round right away
                 self.uses_subtree_roots = true;
@@ -447,6 +479,10 @@ impl Hist {
                             self.flags.rewind_removed_wallet_tx = true;
                         }
                         self.flags.truncations += 1;
+                        // a re-mined transaction is not orphaned a second time (its first observation by the wallet
+                        // would then depend on which of its copies were relevant when scanned): such a rewind keeps
+                        // the chain
+                        let reorg = &(*reorg && !self.chain.has_remined_above(got));
                         if *reorg && got < self.chain.tip_height() {
                             let t = self.chain.sizes_at(got.max(base));
                             if self.frontier_sizes.iter().any(|s| (0..3).any(|p| splits_frontier_ommer(t[p], s[p]))) {
